@@ -44,9 +44,14 @@ Section Ws.
         assert (G : sopt (node_of2 cx (apply_adelta ps (a_delta spc)) (p + length (item_ws2 a)) a)
                     = sopt (node_of2 cx (apply_adelta ps (a_delta spc)) (p' + length (item_ws2 a')) a'))
           by (apply NN; [lia|exact Wa]).
-        destruct (a_kind spc) as [?|? ? ? ?|ch sp full|?]; try exact G.
-        destruct a as [ws cs| | | | | | | | |]; destruct a' as [ws' cs'| | | | | | | | |]; try contradiction; try exact G.
-        cbn [wsv2] in Wa. destruct Wa as [_ <-]. destruct full; reflexivity.
+        destruct (a_kind spc) as [sp0|? ? ? ?|ch sp full|?]; try exact G.
+        * destruct a as [ws cs| |ws nm post ma| | | | |ws ch sa| |];
+            destruct a' as [ws' cs'| |ws' nm' post' ma'| | | | |ws' ch' sa'| |]; try contradiction; try exact G.
+          -- cbn [wsv2] in Wa. destruct Wa as [_ <-]. reflexivity.
+          -- cbn [wsv2] in Wa. destruct Wa as (_ & <- & _). reflexivity.
+          -- cbn [wsv2] in Wa. destruct Wa as (_ & <- & _). reflexivity.
+        * destruct a as [ws cs| | | | | | | | |]; destruct a' as [ws' cs'| | | | | | | | |]; try contradiction; try exact G.
+          cbn [wsv2] in Wa. destruct Wa as [_ <-]. destruct full; reflexivity.
       + apply IH; [lia|exact Wr].
   Qed.
 
